@@ -1263,7 +1263,7 @@ func (ex *Exec) chanSend(c *Chan, v Value) {
 			c.Buf = append(c.Buf, v)
 			return
 		}
-		if !ex.runIdle() {
+		if !ex.runIdle(c) {
 			ex.end("blocked", "send on full/nil channel "+chanName(c)+" @ "+ex.stack())
 		}
 	}
@@ -1286,7 +1286,7 @@ func (ex *Exec) chanRecv(c *Chan, elem types.Type) (Value, bool) {
 			}
 			return zero(elem), false
 		}
-		if !ex.runIdle() {
+		if !ex.runIdle(c) {
 			ex.end("blocked", "receive on empty/nil channel "+chanName(c)+" @ "+ex.stack())
 		}
 	}
@@ -1294,8 +1294,21 @@ func (ex *Exec) chanRecv(c *Chan, elem types.Type) (Value, bool) {
 
 // runIdle runs the next registered idle hook (zzsym.OnIdle); returns false if
 // there is none left.
-func (ex *Exec) runIdle() bool {
+func (ex *Exec) runIdle(waiting ...*Chan) bool {
+	// a blocked operation that waits on an armed timer lets time pass first
+	if ex.side["freezeTimers"] == nil {
+		for _, c := range waiting {
+			if c != nil && c.Kind == 1 {
+				if ts, ok := c.Aux.(*timerState); ok && ts.armed {
+					return ex.advanceTime()
+				}
+			}
+		}
+	}
 	if len(ex.idleHooks) == 0 {
+		if ex.side["freezeTimers"] != nil {
+			return false
+		}
 		return ex.advanceTime()
 	}
 	h := ex.idleHooks[0]
@@ -1337,7 +1350,11 @@ func (ex *Exec) selectStmt(fr *frame, instr *ssa.Select) Value {
 		if !instr.Blocking {
 			break
 		}
-		if !ex.runIdle() {
+		var waiting []*Chan
+		for _, c := range cases {
+			waiting = append(waiting, c.c)
+		}
+		if !ex.runIdle(waiting...) {
 			ex.end("blocked", "select with no ready case @ "+ex.stack())
 		}
 	}
